@@ -22,7 +22,7 @@ func viaUnknowing(e error) error {
 // the network, through knowing and unknowing processes.
 func H_C02_IsTransfer(v *sym.V) {
 	g := newG(v, sym.REGNN)
-	b := g.BuildUpTo("e", v.Param("D", 2), gen.AllLeaves, gen.AllWrappers)
+	b := build(v, g, "e")
 	e := b.Err
 	var r error
 	switch v.Choice("ref", 6) {
